@@ -82,7 +82,7 @@ func Amount() *rapid.Generator[*big.Int] {
 // MetaString is a metadata key or value.
 func MetaString() *rapid.Generator[string] {
 	return rapid.Custom(func(t *rapid.T) string {
-		switch rapid.IntRange(0, 7).Draw(t, "metaClass") {
+		switch rapid.IntRange(0, 9).Draw(t, "metaClass") {
 		case 0:
 			return ""
 		case 1:
@@ -91,6 +91,10 @@ func MetaString() *rapid.Generator[string] {
 			return strings.Repeat(rapid.StringMatching(`[a-z]{1,4}`).Draw(t, "unit"), rapid.IntRange(50, 250).Draw(t, "rep"))
 		case 3:
 			return rapid.String().Filter(func(s string) bool { return !strings.ContainsRune(s, 0) }).Draw(t, "any")
+		case 4:
+			// the character PostgreSQL's jsonb refuses (the insertion fails there; nothing may tidy it away on the
+			// way to the store, the hash has been computed over it)
+			return rapid.SampledFrom([]string{"\x00", "a\x00b", "\x00\x00", "nul\x00"}).Draw(t, "nul")
 		default:
 			return rapid.StringMatching(`[a-zA-Z0-9_./-]{1,8}`).Draw(t, "plain")
 		}
